@@ -432,7 +432,11 @@ fn type_to_string(ty: &AirType) -> String {
         AirType::Struct(name) => name.clone(),
         AirType::Array(inner, size) => format!("array_{}_{}", type_to_string(inner), size),
         AirType::Slice(inner) => format!("slice_{}", type_to_string(inner)),
-        AirType::FnPtr { .. } => "fnptr".to_string(),
+        AirType::FnPtr { params, ret, .. } => {
+            // part of the instance key: two different function types must not share an instance
+            let ps: Vec<String> = params.iter().map(type_to_string).collect();
+            format!("fn_{}_to_{}", ps.join("_"), type_to_string(ret))
+        }
         AirType::Param(id) => format!("param_{}", id.0),
         AirType::Void => "void".to_string(),
     }
